@@ -121,10 +121,12 @@ def AStore.set (a : AStore) (key0 : Str) (value : Option Str) : AStore :=
     -- StyleAttribute(value, tag) (a value-less `style` is the empty style), copied once more by
     -- `tag.style = …` through its string form
     let sd := styleToDict (styleStr (styleToDict (value.getD [])))
+    -- the style setter keeps the key present exactly while the style is non-empty (fix 77f2c48)
     let d1 := if sd.isEmpty then dictDel a.dict key else dictSet a.dict key (some [])
-    { a with dict := dictSet d1 key value, style := sd }
+    { a with dict := d1, style := sd }
   else if key = str "class" then
-    { a with classes := classNames (value.getD (str "None")) }
+    -- no value means no class names (fix 9cd4d4b)
+    { a with classes := classNames (value.getD []) }
   else if binaryStringAttrs.contains key then
     { a with dict := dictSet a.dict key (some (boolString value)) }
   else { a with dict := dictSet a.dict key value }
